@@ -167,6 +167,7 @@ func cmdCheck(args []string) int {
 		fmt.Fprintln(os.Stderr, "infrastructure error: no configuration for property", *prop)
 		return 2
 	}
+	currentProperty = *prop
 	var ov map[string][]byte
 	for _, o := range overlays {
 		i := strings.Index(o, "=")
@@ -200,7 +201,7 @@ func cmdCheck(args []string) int {
 			return 2
 		}
 	}
-	timeout := 20 * time.Second
+	timeout := 30 * time.Second
 	if *tier == "thorough" {
 		timeout = 120 * time.Second
 	}
@@ -347,7 +348,8 @@ func cmdCheck(args []string) int {
 	// solve
 	var wg sync.WaitGroup
 	sem := make(chan struct{}, 6)
-	var mu sync.Mutex
+	var mu, retryMu sync.Mutex
+	retries := 0
 	solverSecs := map[string]float64{}
 	for idx, j := range all {
 		wg.Add(1)
@@ -380,6 +382,24 @@ func cmdCheck(args []string) int {
 				name = name[:120]
 			}
 			r := runPortfolio(script, scratch, name, to, seed, *tier == "thorough" && !j.o.Cover)
+			if !j.o.Cover && r.result != "sat" && r.result != "unsat" {
+				// second chance: an undecided (timeout / unknown) proof obligation is retried once, alone, with twice the
+				// time and another seed — a machine loaded by other processes must not turn a 1-second proof into an alarm
+				retryMu.Lock()
+				var r2 solveOut
+				if retries < 8 { // a tree that really breaks many obligations is not worth hours of retries
+					retries++
+					r2 = runPortfolio(script, scratch, name+"_retry", 2*to, seed+3, false)
+				}
+				retryMu.Unlock()
+				if r2.result == "sat" || r2.result == "unsat" {
+					r2.seconds += to.Seconds()
+					for sname, t := range r.perSolver {
+						r2.perSolver[sname+"/first-try"] = t
+					}
+					r = r2
+				}
+			}
 			j.o.Result, j.o.Solver, j.o.Seconds, j.o.Model, j.o.Raw, j.o.Bytes = r.result, r.solver, r.seconds, r.model, r.raw, len(script)
 			mu.Lock()
 			if rj := replays[j.o]; rj != nil && r.result == "sat" && len(j.getValues) > 0 {
@@ -522,6 +542,11 @@ func declareOpaque(P *Program, db *SpecDB, ti *TypeInfo) {
 		}
 		gt, err := e.resolveGoType(te, od.PkgPath, od.Imports)
 		if err != nil {
+			if od.PkgPath != "" && !P.Complete[od.PkgPath] {
+				// the declaring package is only a stub of this load (reached indirectly): the type is simply not in play
+				db.Skipped = append(db.Skipped, fmt.Sprintf("opaque/immutable %s (package %s only partially loaded)", te.String(), od.PkgPath))
+				continue
+			}
 			db.Errors = append(db.Errors, "opaque/immutable "+te.String()+": "+err.Error())
 			continue
 		}
